@@ -175,8 +175,10 @@ def run(spec):
                                     (mm.FullCode, k, float(V(k, mm.GetVariableName('DEM_' + mm.Code))), float(tot)))
                 if V(k, issuer.GetVariableName('SUP_' + mm.Code)) != tot or V(k, mm.GetVariableName('SUP_' + mm.Code)) != tot:
                     raise Violation('C04/money-supply', 'money market %s period %d: issuer supply differs from demand' % (mm.FullCode, k))
-        if c0['deposit'] is not None:
-            dm = S[(zi, 0, 'deposit')]
+        for asset_role in ('deposit', 'bonds'):
+            if c0.get(asset_role) is None:
+                continue
+            dm = S[(zi, 0, asset_role)]
             issuer = S[(zi, 0, 'gov')]
             nmv = 'DEM_' + dm.Code
             holders = [s for s in zone_sectors if not isinstance(s, _Market) and s is not issuer and nmv in s.EquationBlock.Equations]
@@ -196,6 +198,8 @@ def run(spec):
                 for k in range(1, K + 1):
                     if h['weights'] is not None and dep_code is not None:
                         tot = V(k, hh.GetVariableName('DEM_' + dep_code)) + V(k, hh.GetVariableName('DEM_' + mon_code))
+                        if c0.get('bonds') is not None:
+                            tot += V(k, hh.GetVariableName('DEM_' + S[(zi, 0, 'bonds')].Code))
                         if tot != V(k, hh.GetVariableName('F')):
                             raise Violation('C04/portfolio', '%s period %d: asset demands %s != F %s' %
                                             (hh.FullCode, k, float(tot), float(V(k, hh.GetVariableName('F')))))
